@@ -177,6 +177,27 @@ def corpus(only=None):
                 j["origin"] = "minimised trace that exposes seeded change %s (%s)" % (sid, meta["change"])
                 json.dump(j, open(dst, "w"))
                 print(sid, "kept", j["violation"]["class"])
+            elif rc == 70:
+                # the process crashed (abort / stack overflow): find the run that crashes alone and keep a
+                # replay that regenerates it from (seed, index), as ./check does
+                import re
+                m = re.search(r"CRASH signal=\d+ inflight=([\d,]*)", o)
+                kept = False
+                for idx in [int(x) for x in (m.group(1).split(",") if m else []) if x]:
+                    rc2, _ = sh("%s/release/mhsim run --prop %s --first %d --runs 1 --threads 1 --no-evidence --verif-dir %s" % (tdir, prop, idx, tmp))
+                    if rc2 == 70 or rc2 < 0:
+                        cls = "%s:abort" % prop
+                        j = {"property": prop, "seed": 20261001, "run_index": idx,
+                             "case": {"engine": "generator", "seed": 20261001, "index": idx, "thorough": False},
+                             "violation": {"class": cls, "step": 0, "detail": "the process crashed while executing this run"},
+                             "signature": cls, "window": 1024,
+                             "origin": "run that exposes seeded change %s (%s): the process crashes" % (sid, meta["change"])}
+                        json.dump(j, open(os.path.join(VERIF, "corpus", sid + ".replay.json"), "w"))
+                        print(sid, "kept", cls)
+                        kept = True
+                        break
+                if not kept:
+                    print(sid, "CRASH not reproducible alone")
             else:
                 print(sid, "NOT DETECTED rc=%d" % rc)
         finally:
